@@ -351,3 +351,64 @@ where
         self.inner.call(req)
     }
 }
+
+/// Wrapper whose readiness (on every clone) is withheld during the virtual-time intervals
+/// `[from, to)` (ms since the case epoch): a backend that is busy for a while. Pending readiness
+/// is woken by a timer at the end of the interval. Requests handed over by `call` are served
+/// regardless (a caller that respected `poll_ready` before calling never notices the wrapper).
+pub struct BusyAt<S> {
+    inner: S,
+    windows: Arc<Vec<(u64, u64)>>,
+    until: Option<std::pin::Pin<Box<tokio::time::Sleep>>>,
+}
+
+impl<S> BusyAt<S> {
+    pub fn new(inner: S, windows: Vec<(u64, u64)>) -> Self {
+        BusyAt {
+            inner,
+            windows: Arc::new(windows),
+            until: None,
+        }
+    }
+}
+
+impl<S: Clone> Clone for BusyAt<S> {
+    fn clone(&self) -> Self {
+        BusyAt {
+            inner: self.inner.clone(),
+            windows: self.windows.clone(),
+            until: None,
+        }
+    }
+}
+
+impl<S, R> tower::Service<R> for BusyAt<S>
+where
+    S: tower::Service<R>,
+{
+    type Response = S::Response;
+    type Error = S::Error;
+    type Future = S::Future;
+
+    fn poll_ready(&mut self, cx: &mut Context<'_>) -> Poll<Result<(), S::Error>> {
+        loop {
+            if let Some(s) = self.until.as_mut() {
+                if std::future::Future::poll(s.as_mut(), cx).is_pending() {
+                    return Poll::Pending;
+                }
+                self.until = None;
+            }
+            let now = crate::sim::now();
+            match self.windows.iter().find(|(a, b)| now >= *a && now < *b) {
+                Some((_, b)) => {
+                    self.until = Some(Box::pin(tokio::time::sleep(Duration::from_millis(b - now))));
+                }
+                None => return self.inner.poll_ready(cx),
+            }
+        }
+    }
+
+    fn call(&mut self, req: R) -> Self::Future {
+        self.inner.call(req)
+    }
+}
